@@ -233,6 +233,11 @@ def check_prim(cname, v, ctx):
         return fails, octets
     if not same(base, got, refv):
         fails.append(("prim:%s:%s:value-changed" % (base, mode), "%s(%r) ctx=%r -> %s -> %r" % (short, _s(v), ctx, octets[:24].hex(), _s(got))))
+    # 3b. a decoded value handed on through the copy constructor (what every constructed type does with its elements) is the same value
+    if not fails:
+        fails += copy_check(L, klass, base, kind, short, mode, ctx, obj2, octets, v)
+        if base == "CharacterString" and isinstance(refv, str):
+            fails += charset_check(L, klass, kind, short, mode, ctx, refv)
     # names survive
     if base == "Enumerated":
         by_name, by_num = enum_table(klass)
@@ -258,6 +263,57 @@ def check_prim(cname, v, ctx):
     except R.Reject as rj:
         fails.append(("prim:%s:%s:reference-self-check" % (base, mode), "reference rejects %s: %s" % (octets[:24].hex(), rj)))
     return fails, octets
+
+
+def _encode_obj(L, obj, ctx):
+    tag = L.P.Tag()
+    obj.encode(tag)
+    if ctx is not None:
+        tag = tag.app_to_context(ctx)
+    pdu = L.PDUData()
+    tag.encode(pdu)
+    return bytes(pdu.pduData)
+
+
+def copy_check(L, klass, base, kind, short, mode, ctx, obj2, octets, v):
+    try:
+        o3 = _encode_obj(L, klass(obj2), ctx)
+    except Exception as err:
+        return [("prim:%s:%s:copy-raised:%s" % (base, mode, type(err).__name__), "%s(%r): copying the decoded value raised %r" % (short, _s(v), err))]
+    if o3 != octets:
+        return [("prim:%s:%s:copy-differs" % (base, mode), "%s(%r): decoded from %s, copied with %s(obj), encodes to %s" % (short, _s(v), octets[:24].hex(), short, o3[:24].hex()))]
+    return []
+
+
+def charset_check(L, klass, kind, short, mode, ctx, text):
+    """the same string arriving in the other character sets of clause 20.2.9: decodes to the same text, and a copy re-encodes to the same octets"""
+    P = L.P
+    fails = []
+    for cs, codec in ((3, "utf_32_be"), (4, "utf_16_be"), (5, "latin_1")):
+        try:
+            raw = text.encode(codec)
+        except UnicodeError:
+            continue
+        if len(raw) > 2000:
+            continue
+        content = bytes([cs]) + raw
+        octets = R.encode_tag((R.APP, R.CHARS, len(content), content)) if ctx is None else R.encode_tag((R.CTX, ctx, len(content), content))
+        try:
+            t2 = P.Tag(L.PDUData(octets))
+            if ctx is not None:
+                t2 = t2.context_to_app(kind)
+            obj = klass(t2)
+            if obj.value != text:
+                fails.append(("prim:CharacterString:%s:charset%d:value-changed" % (mode, cs), "%r sent in character set %d (%s) decodes as %r" % (_s(text), cs, octets[:24].hex(), _s(obj.value))))
+                continue
+            o3 = _encode_obj(L, klass(obj), ctx)
+            back = klass(P.Tag(L.PDUData(o3)).context_to_app(kind) if ctx is not None else P.Tag(L.PDUData(o3)))
+            if back.value != text:
+                fails.append(("prim:CharacterString:%s:charset%d:copy-changes-value" % (mode, cs), "%r received in character set %d, copied and encoded again (%s) decodes as %r"
+                              % (_s(text), cs, o3[:24].hex(), _s(back.value))))
+        except Exception as err:
+            fails.append(("prim:CharacterString:%s:charset%d:raised:%s" % (mode, cs, type(err).__name__), "%r in character set %d (%s) raised %r" % (_s(text), cs, octets[:24].hex(), err)))
+    return fails[:1]
 
 
 def _s(v):
